@@ -283,7 +283,14 @@ def enum_mixed_trees(seed):
     rnd = random.Random(seed + 606)
     from pkgcore.ebuild.cpv import Revision, ver_cmp
     from pkgcore.ebuild import restricts as R_
-    universe = [types.SimpleNamespace(category=c, package=p, fullver=v, version=v.split("-r")[0], revision=Revision(v.split("-r")[1]) if "-r" in v else None, use=frozenset(u))
+    class Only_in:
+        """a container that answers `in` and cannot be iterated (like the lazily inverted flag sets configured packages carry)"""
+        def __init__(self, members):
+            self._m = frozenset(members)
+
+        def __contains__(self, x):
+            return x in self._m
+    universe = [types.SimpleNamespace(category=c, package=p, fullver=v, version=v.split("-r")[0], revision=Revision(v.split("-r")[1]) if "-r" in v else None, use=frozenset(u), flags=Only_in(u))
                 for c in ("sys-apps", "dev-util") for p in ("sed", "gawk") for v in ("1.0", "1.0-r1", "2.0-r1") for u in ((), ("nls",), ("nls", "acl"))]
     alive = []   # restriction objects are cached by their arguments while alive: trees built earlier stay referenced, as they do in a running program
 
@@ -302,6 +309,7 @@ def enum_mixed_trees(seed):
         "category": [lambda n: values.StrExactMatch("sys-apps", negate=n), lambda n: values.StrGlobMatch("dev", negate=n), lambda n: values.StrRegex("^sys", negate=n)],
         "package": [lambda n: values.StrExactMatch("sed", negate=n), lambda n: values.StrGlobMatch("awk", prefix=False, negate=n)],
         "fullver": [lambda n: values.StrExactMatch("1.0", negate=n), lambda n: values.StrGlobMatch("2.", negate=n)],
+        "flags": [lambda n: values.ContainmentMatch(("nls",), negate=n), lambda n: values.ContainmentMatch(("acl", "nls"), match_all=True, negate=n), lambda n: values.ContainmentMatch(("acl", "x"), negate=n)],
         "use": [lambda n: values.ContainmentMatch(("nls",), negate=n), lambda n: values.ContainmentMatch(("acl", "nls"), match_all=True, negate=n),
                 lambda n: values.ContainmentMatch(("acl", "x"), negate=n)],
     }
@@ -323,6 +331,9 @@ def enum_mixed_trees(seed):
     def value_tree(attr, depth):
         if depth == 0 or rnd.random() < 0.45:
             leaf = rnd.choice(leafmakers[attr])(rnd.random() < 0.3)
+            if attr == "flags":
+                # a containment leaf's meaning, computed here: any (or all) of its values are in the container, xor negate
+                return leaf, (lambda v, _l=leaf: (all if _l.all else any)(x in v for x in _l.vals) != _l.negate), str(leaf)
             return leaf, (lambda v, _l=leaf: bool(_l.match(v))), str(leaf)
         kind = rnd.choice(("and", "or"))
         neg = rnd.random() < 0.4
